@@ -104,6 +104,17 @@ Read(s) ==
       why |-> IF ~hasnum THEN "no_number" ELSE IF neg \/ num = 0 THEN "nonpositive"
               ELSE IF ~(lenientunit /\ letters) THEN "bad_unit" ELSE "valid"]
 
+\* A modelled, standing deviation of the helper from the public behaviour: Python's float() reads the words
+\* nan / inf / infinity (any case, optional sign), so convolution._get_distance returns NaN or inf for them, while
+\* every public caller then fails converting radius/cellsize to an integer.  Through the public API such a
+\* string is rejected (which is what the property asks); the helper-level acceptance is recorded, not alarmed.
+RECURSIVE LowerSeq(_)
+LowerSeq(s) == IF s = <<>> THEN <<>> ELSE <<Lower(Head(s))>> \o LowerSeq(Tail(s))
+IsFloatWord(s) ==
+  LET t == LowerSeq(s)
+      u == IF Len(t) > 0 /\ t[1] \in {"-", "+"} THEN Tail(t) ELSE t
+  IN u \in {<<"n","a","n">>, <<"i","n","f">>, <<"i","n","f","i","n","i","t","y">>}
+
 \* outcomes the property admits for s
 Admits(s, accepted) ==
   LET r == Read(s) IN
